@@ -792,3 +792,29 @@ func After(d time.Duration) <-chan time.Time {
 	})
 	return ch
 }
+
+// TryRecv replaces reflect.Value.TryRecv: a non-blocking receive, decided like a select with default.
+func TryRecv(v reflect.Value) (reflect.Value, bool) {
+	if active == nil {
+		return v.TryRecv()
+	}
+	t := hook(pending{kind: opSelect, label: "tryrecv", ops: []Op{{Send: false, Ch: v.Interface()}}, hasDefault: true})
+	if t.op.result < 0 {
+		return reflect.Zero(v.Type().Elem()), false
+	}
+	x, ok := v.Recv() // established ready by the scheduler (a parked unbuffered sender was granted with it)
+	return x, ok
+}
+
+// TrySend replaces reflect.Value.TrySend.
+func TrySend(v, x reflect.Value) bool {
+	if active == nil {
+		return v.TrySend(x)
+	}
+	t := hook(pending{kind: opSelect, label: "trysend", ops: []Op{{Send: true, Ch: v.Interface()}}, hasDefault: true})
+	if t.op.result < 0 {
+		return false
+	}
+	v.Send(x)
+	return true
+}
